@@ -353,7 +353,8 @@ coap_oscore_new_pdu_encrypted_lkd(coap_session_t *session,
   oscore_sender_ctx_t *snd_ctx;
   uint8_t external_aad_buffer[200];
   coap_bin_const_t external_aad;
-  uint8_t oscore_option[48];
+  /* flags + Partial IV + kid context (length byte, CBOR head) + kid */
+  uint8_t oscore_option[1 + 5 + 4 + 255 + 7];
   size_t oscore_option_len;
 
   /* Check that OSCORE has not already been done */
@@ -479,6 +480,12 @@ coap_oscore_new_pdu_encrypted_lkd(coap_session_t *session,
       oscore_encode_option_value(oscore_option, sizeof(oscore_option), cose,
                                  group_flag,
                                  session->b_2_step != COAP_OSCORE_B_2_NONE);
+  if (oscore_option_len == 0 &&
+      (cose->partial_iv.length > 0 || cose->kid_context.length > 0 ||
+       cose->key_id.s != NULL)) {
+    coap_log_warn("OSCORE: OSCORE option cannot be encoded\n");
+    goto error;
+  }
   if (!coap_request) {
     /* Reset what was just unset as appropriate for AAD */
     cose_encrypt0_set_key_id(cose, rcp_ctx->recipient_id);
